@@ -8,6 +8,7 @@ import QR.Model.Render
 import QR.Spec.Render
 import QR.Model.Release
 import QR.Spec.Release
+import QR.Model.QRObject
 /-
 Line-protocol driver (native executable `qrdrv`, Mathlib-free).
 One request per line: `<op> <arg> ...` (whitespace separated); one reply per line.
@@ -90,6 +91,60 @@ def fmtMods (m : List (List Bool)) : String :=
   if m.isEmpty then "-" else "/".intercalate (m.map fun row => String.ofList (row.map fun b => if b then '1' else '0'))
 def fmtOptMods (m : Option (List (List Bool))) : String :=
   match m with | some m => "ok " ++ fmtMods m | none => "fail unreadable"
+
+def hashStep (h x : Nat) : Nat := (h * 31 + x) % 1000000007
+def hashOpt (m : List (List (Option Bool))) : Nat :=
+  m.foldl (fun h row => hashStep (row.foldl (fun h c => hashStep h (match c with | none => 0 | some false => 1 | some true => 2)) h) 3) 7
+def hashSegs (l : List Seg) : Nat :=
+  l.foldl (fun h s => hashStep (s.data.foldl hashStep (hashStep h (s.mode + 300))) 299) 7
+
+def parseOptInt (s : String) : Option (Option Int) := if s = "-" then some none else (parseInt s).map some
+
+def parseOp (s : String) : Option Op :=
+  match s.splitOn "~" with
+  | ["add", d, n] => do pure (.addData (← parseList d) (← parseNat n))
+  | ["addseg", sg] => do match ← parseSegs sg with | [x] => pure (.addSeg x) | _ => none
+  | ["clear"] => some .clear
+  | ["make", f] => do pure (.make (← parseBool f))
+  | ["setv", x] => do pure (.setVersion (← parseOptInt x))
+  | ["setl", l] => do pure (.setLevel (← parseNat l))
+  | ["setm", x] => do pure (.setMask (← parseOptInt x))
+  | ["setb", x] => do pure (.setBorder (← parseInt x))
+  | ["setbox", x] => do pure (.setBoxSize (← parseInt x))
+  | ["getm"] => some .getMatrix
+  | ["mut", r, c, x] => do pure (.mutateModules (← parseNat r) (← parseNat c) (← parseBool x))
+  | ["img"] => some .makeImage
+  | ["ascii"] => some .printAscii
+  | ["tty"] => some .printTty
+  | ["other", v, l, m, f, sg] => do
+      let m ← if m = "-" then some none else (parseNat m).map some
+      pure (.otherCompile { version := ← parseNat v, level := ← parseNat l, mask := m, fit := ← parseBool f } (← parseSegs sg))
+  | _ => none
+
+def fmtOut (o : Out) : String :=
+  match o with
+  | .unit => "u"
+  | .err e => "e:" ++ e.name
+  | .matrix m => s!"m:{m.length}:{hashOpt m}"
+  | .image b n box m => s!"i:{b}:{n}:{box}:{hashOpt m}"
+  | .text b m => s!"t:{b}:{hashOpt m}"
+
+def fmtState (s : QRState) : String :=
+  s!"S:{s.version}:{s.level}:{match s.mask with | some m => toString m | none => "-"}:{s.border}:{s.boxSize}:{s.dataList.length}:{hashSegs s.dataList}:{if s.dataCache.isSome then 1 else 0}:{s.modulesCount}:{hashOpt s.modules.toLists}"
+
+def objRun (ctor : String) (ops : String) (warm : String) : Option String := do
+  let ops ← if ops = "-" then some [] else (ops.splitOn "|").mapM parseOp
+  let warmVs ← parseList warm
+  match ctor.splitOn "," with
+  | [v, l, box, b, m] =>
+    let v ← parseOptInt v; let l ← parseNat l; let box ← parseInt box; let b ← parseInt b; let m ← parseOptInt m
+    match construct v l box b m with
+    | .error e => pure ("ctor-err " ++ e.name)
+    | .ok s0 =>
+      let g0 : Global := { blanks := warmVs.filterMap fun v => match blank v with | .ok b => some (v, b) | .error _ => none }
+      let (st, outs) := run (g0, s0) ops
+      pure ("ok " ++ "|".intercalate (outs.map fmtOut) ++ " " ++ fmtState st.2 ++ " G:" ++ fmtList ((st.1.blanks.map (·.1)).mergeSort))
+  | _ => none
 
 def reply (r : R String) : String :=
   match r with
@@ -257,6 +312,7 @@ def handle (toks : List String) : Option String :=
   | ["spec.readtty", t] => do
       let t ← parseHexStr t
       pure (fmtOptMods (Spec.readTty (t.toList.map Char.toNat)))
+  | ["obj", ctor, ops, warm] => objRun ctor ops warm
   | ["spec.penalty", m] => do let m ← parseBMat m; pure ("ok " ++ toString (Spec.penalty m))
   | ["spec.n1", m] => do let m ← parseBMat m; pure ("ok " ++ toString (Spec.N1 m m.length))
   | ["spec.n2", m] => do let m ← parseBMat m; pure ("ok " ++ toString (Spec.N2 m))
